@@ -1,2 +1,73 @@
-(* C17 -- placeholder while the proofs are being written *)
-From DRF Require Import Model.Mirror.
+(* C17 -- Mirror fidelity, staged publication and no loss in move mode.   (proof over a protocol model; partial)
+   Property theorems only; each is closed by `exact` of a lemma of Proofs/MirrorProofs.v.
+   Model/Mirror.v: mirror_to_dest as a sequence of atomic file-system operations (a copy is two
+   operations: the name exists before the content is complete; link, rename and same-file-system move
+   are atomic; cross-file-system move is copy + unlink), the handler set DigitalRFMirror builds for
+   copy / move / link, and the count=1 ring buffer (Model/Ringbuffer.v) on the source metadata.
+   `mtrace mc evs` lists the state after EVERY file-system operation of a history of recorder writes
+   and delivered events; `mrun mc evs` is the last one.
+   Assumed at run time (not proved): shutil.copy2 / os.link / os.rename semantics as modelled,
+   filecmp.cmp = content equality, watchdog delivery, one event handled at a time. *)
+From Coq Require Import ZArith List Bool.
+From DRF Require Import Model.Ringbuffer Proofs.RingbufferProofs Model.Mirror Proofs.MirrorProofs.
+Import ListNotations.
+Local Open Scope Z_scope.
+
+(* staged publication: in no state of any trace does a final destination name hold an incomplete file *)
+Theorem C17_staged_publication : forall mc evs t, In t (mtrace mc evs) ->
+  forall p d, dget (Fin p) (dst t) = Some d -> dok d = true.
+Proof. exact staged_publication. Qed.
+Print Assumptions C17_staged_publication.
+
+(* fidelity (guarded): an event for p handled while the source holds p's final content c puts c under
+   p's final destination name (all three methods, every kind of file), and duplicated, late or stale
+   events and events for other files -- anything that does not rewrite p -- leave it there *)
+Theorem C17_mirrored_equal_partial : forall mc pre p c (created : bool) post,
+  rget p (src (mrun mc pre)) = Some c -> mirrorable p = true -> Forall (no_rewrite p c) post ->
+  exists l, dget (Fin p) (dst (mrun mc (pre ++ (if created then ECreated p else EModified p) :: post)))
+            = Some (mkD c true l).
+Proof. exact finalized_mirrored. Qed.
+Print Assumptions C17_mirrored_equal_partial.
+
+(* the unguarded statement ("after the events for a finalized file have been processed the destination
+   has its final content") is false in move mode when events are reordered: the count=1 ring buffer
+   deletes the older metadata file from the source before its last modification was mirrored *)
+Theorem C17_mirrored_equal_refuted : ~ finalized_full.
+Proof. exact finalized_refuted. Qed.
+Print Assumptions C17_mirrored_equal_refuted.
+
+(* idempotence: handling the same file again (duplicate event, or an event for a file that has vanished)
+   plans no file-system operation (at most the link method remembers a directory it cannot link from) *)
+Theorem C17_idempotent_under_duplicates_and_stale_events : forall mc m m' s p, MInvR s ->
+  forall f, In f (mirror_plan mc m' (exec s (mirror_plan mc m s p)) p) -> exists q, f = FNoLink q.
+Proof. exact second_plan_empty. Qed.
+Print Assumptions C17_idempotent_under_duplicates_and_stale_events.
+
+(* once mirrored, stays mirrored: through every operation of every later history that does not rewrite p *)
+Theorem C17_mirrored_stable : forall p c mc evs s, MInvR s -> Stable p c s -> Forall (no_rewrite p c) evs ->
+  (forall t, In t (states s (run_fops mc s evs)) -> Stable p c t) /\ Stable p c (exec s (run_fops mc s evs)).
+Proof. exact mirrored_stable. Qed.
+Print Assumptions C17_mirrored_stable.
+
+(* move mode (and the others): from the moment data file p is written, at EVERY point between two
+   file-system operations an intact copy exists in the source, under the tmp. name or under the final name *)
+Theorem C17_move_never_loses : forall mc pre p c post t, kind_rf p = true ->
+  In t (states (mrun mc (pre ++ [EWrite p c])) (run_fops mc (mrun mc (pre ++ [EWrite p c])) post)) ->
+  Forall (untouched p) post -> Holds p c t.
+Proof. exact move_never_loses. Qed.
+Print Assumptions C17_move_never_loses.
+
+(* move mode: properties and metadata files are copied, and a properties file stays in the source *)
+Theorem C17_props_and_metadata_copied : forall mc pre p c, m_meth mc = MMove ->
+  kind_md p || kind_prop p = true -> rget p (src (mrun mc pre)) = Some c ->
+  Full (dget (Fin p) (dst (mrun mc (pre ++ [ECreated p])))) c /\
+  (kind_prop p = true -> rget p (src (mrun mc (pre ++ [ECreated p]))) = Some c).
+Proof. exact props_and_metadata_copied. Qed.
+Print Assumptions C17_props_and_metadata_copied.
+
+(* the newest metadata file stays: whatever the mirror's ring buffer deletes from the source, a tracked
+   file of the same channel that is at least as new remains (uses the C16 theorems for count = 1) *)
+Theorem C17_newest_metadata_stays : forall mc evs d, In d (dels (ring (mrun mc evs))) ->
+  exists x, In x (keys (recs (d_pre d))) /\ x <> d_path d /\ pg x = pg (d_path d) /\ pk (d_path d) <= pk x.
+Proof. exact newest_metadata_stays. Qed.
+Print Assumptions C17_newest_metadata_stays.
